@@ -24,6 +24,11 @@ def run_check(pid, repo):
 
 def main():
     only = sys.argv[2:] if len(sys.argv) > 2 else None
+    if not only:
+        from checks import modelcheck
+        rc = modelcheck.main()
+        if rc:
+            return rc
     report = {}
     base = Path(tempfile.mkdtemp(prefix="verif_selftest_"))
     # checks rewrite evidence/<id>.json on every run: keep the files produced against /repo itself
